@@ -121,7 +121,7 @@ TABLE["C07"] = {
     "trusted_base": TB_COMMON + ["a fake! call site owns one static counter (macro hygiene of `static FAKE_COUNTER` inside the expansion block)"],
     "rule": "PRNG sequences of 2-8 (2-50 thorough) consecutive injector lifetimes that evaluate the same fake!(..., times: N) source line, call counts around N (N, N-1, random up to N+2) with occasional non-matching calls; every call outcome and every scope-exit verdict compared; lines tagged cnt belong to C06",
     "assumptions": ["one installation of a given call site at a time"],
-    "filter_prefix": ["life"],
+    "filter_prefix": ["life", "cntshared"],
     "level_text": "Theorem C07_local: for every sequence of lifetimes evaluating the same call site and any counter value left behind, each lifetime's call outcomes and exit verdict equal those it would have alone, because installation resets the counter (fact extracted from will_execute by the translator: C07_source_resets); C07_without_reset_false documents the pre-fix defect. Correspondence: real macro over consecutive lifetimes in one process.",
     "level_note": "Trusted: Lean kernel, translator's pattern for the reset (counter.store(0, ..) before will_execute_raw).",
 }
